@@ -1,6 +1,7 @@
 package hx
 
 import (
+	"crypto/sha256"
 	"encoding/hex"
 	"fmt"
 	"net"
@@ -338,7 +339,11 @@ func (cl *Cluster) keyTok(key string) (Tok, bool) {
 	if !ok {
 		return Tok{}, false
 	}
-	parts := strings.Split(key[e+1:], ".")
+	rest := key[e+1:]
+	if bar := strings.IndexByte(rest, '|'); bar >= 0 {
+		rest = rest[:bar] // "|padding" after the token
+	}
+	parts := strings.Split(rest, ".")
 	if len(parts) < 3 {
 		return Tok{}, false
 	}
@@ -462,7 +467,12 @@ func (cl *Cluster) processLocked(nc *NodeConn) {
 		}
 		ev := Event{Ev: "recv", N: nc.node.Name, Conn: nc.Id, K: name, Txt: args[0], Fid: pc.Fid, Toks: pc.Toks}
 		if cl.cfg.RawLog {
-			ev.Raw = hex.EncodeToString(raw)
+			if len(raw) <= 4096 {
+				ev.Bytes = IntBytes(raw)
+			} else {
+				ev.Raw = fmt.Sprintf("sha256:%x:%d", sha256.Sum256(raw), len(raw))
+				ev.Bytes = IntBytes(raw[:64])
+			}
 		}
 		if len(pc.Toks) > 0 {
 			ev.C, ev.I = pc.Toks[0].C, pc.Toks[0].I
@@ -645,7 +655,7 @@ func (cl *Cluster) answerLocked(nc *NodeConn, kind, cls, to string, raw []byte) 
 	if b == nil {
 		b = cl.replyFor(nc.node, pc, kind, cls, to)
 	}
-	ev := Event{Ev: "answer", N: nc.node.Name, Conn: nc.Id, Fid: pc.Fid, Kind: kind, Cls: cls, To: to, K: pc.Name, C: tokC(pc), I: tokI(pc)}
+	ev := Event{Ev: "answer", N: nc.node.Name, Conn: nc.Id, Fid: pc.Fid, Kind: kind, Cls: cls, To: to, K: pc.Name, C: tokC(pc), I: tokI(pc), Size: len(b)}
 	// what the node said about each key of the command, as the merge oracle needs it
 	if r, _, ok, _ := respx.ParseReply(b); ok {
 		ev.Toks = append([]Tok(nil), pc.Toks...)
@@ -671,7 +681,11 @@ func (cl *Cluster) answerLocked(nc *NodeConn, kind, cls, to string, raw []byte) 
 		}
 	}
 	if cl.cfg.RawLog {
-		ev.Raw = hex.EncodeToString(b)
+		if len(b) <= 4096 {
+			ev.Bytes = IntBytes(b)
+		} else {
+			ev.Raw = fmt.Sprintf("sha256:%x:%d", sha256.Sum256(b), len(b))
+		}
 	}
 	// log before write: the answer happens-before anything the proxy does with it
 	cl.log.Add(ev)
